@@ -40,7 +40,12 @@ def _frac(x):
 
 def observe_case(sc):
     """Flagged parameters of a case: (model, param, kind, device, vin, v, pu_coeff, base tuple)."""
-    ss = load_case(sc["case"])
+    if sc.get("gen"):
+        # a generated network whose devices are rated on bases different from their buses' (factors != 1)
+        from . import pfdrv, netbuild
+        ss, _, _ = netbuild.build(pfdrv.network_spec(*sc["gen"]))
+    else:
+        ss = load_case(sc["case"])
     recs = []
     for mname, mdl in ss.models.items():
         if mdl.n == 0:
@@ -103,6 +108,14 @@ def run_sequence(sc):
         targets = {k: tuple(v[:3]) for k, v in sc["targets"].items()}
         groups = {k: v[3] for k, v in sc["targets"].items()}
     ev = []
+    if sc.get("export_first"):
+        d0 = scratch_dir("exp0")
+        try:
+            for fmt in sc["export_first"]:
+                andes.io.dump(ss, fmt, full_path=os.path.join(d0, "first." + fmt), overwrite=True)
+        finally:
+            import shutil as _sh
+            _sh.rmtree(d0, ignore_errors=True)
     s0 = _snapshot(ss, targets)
     vals = [1.5, 2.25, 0.75]
     for j, op in enumerate(sc["ops"]):
